@@ -74,7 +74,7 @@ from types import TracebackType
 from typing import BinaryIO
 
 from dulwich.object_format import SHA1
-from dulwich.objects import ObjectID
+from dulwich.objects import ZERO_SHA, ObjectID
 from dulwich.refs import (
     SYMREF,
     Ref,
@@ -1179,9 +1179,12 @@ class ReftableRefsContainer(RefsContainer):
         except KeyError:
             current = None
 
-        old_ref_bytes = bytes(old_ref) if old_ref else None
-        if current != old_ref_bytes:
-            return False
+        # old_ref None means "set unconditionally"; the zero id means "must
+        # not exist yet" (as in the other ref containers)
+        if old_ref is not None:
+            expected = None if old_ref == ZERO_SHA else bytes(old_ref)
+            if current != expected:
+                return False
 
         # Update ref
         self._write_ref_update(bytes(name), REF_VALUE_REF, bytes(new_ref))
@@ -1222,9 +1225,11 @@ class ReftableRefsContainer(RefsContainer):
         except KeyError:
             current = None
 
-        old_ref_bytes = bytes(old_ref) if old_ref else None
-        if current != old_ref_bytes:
-            return False
+        # old_ref None means "delete unconditionally"
+        if old_ref is not None:
+            expected = None if old_ref == ZERO_SHA else bytes(old_ref)
+            if current != expected:
+                return False
 
         self._write_ref_update(bytes(name), REF_VALUE_DELETE, b"")
         return True
